@@ -204,6 +204,17 @@ async fn scenario(name: &str) -> Result<(), String> {
             if on_follower != on_leader {
                 return Err(format!("the same committed requests give {:?} through follower replication and {:?} through the leader's apply path", on_follower, on_leader));
             }
+            // (b') the follower restarts: start-up replay of the batch it replicated must give the same state again
+            let d5 = tempfile::tempdir().unwrap();
+            let (_e, f_applied) = stop_and_copy(&follower, d2.path(), d5.path()).await;
+            let f_restarted = boot(d5.path()).await;
+            let f_after = served(&f_restarted).await;
+            if f_after != on_leader {
+                return Err(format!(
+                    "a follower that replicated the committed requests as one batch serves {:?} after a restart (last applied index on disk {}); the leader serves {:?}",
+                    f_after, f_applied, on_leader
+                ));
+            }
             // (c) is the leader's own log replayed after a restart - before any compaction, so take a second leader without one
             let l2 = boot(d3.path()).await;
             for (i, r) in reqs.iter().enumerate() {
